@@ -1,11 +1,10 @@
 SPECIFICATION Spec
 CONSTANTS
-  Profile = "expr"
-  MaxW = 1
+  Profile = "ifuses"
+  MaxW = 3
   MaxWc = 0
   MaxDepth = 0
   Tights = {FALSE}
   EmitOpen = FALSE
-INVARIANT WellNested
-INVARIANT Emit
+INVARIANT CarriedNegateRefines
 CHECK_DEADLOCK FALSE
